@@ -27,7 +27,7 @@ const RLIMIT_AS: u64 = 4 << 30;
 /// worker's CPU-time monitor; wall-clock time says little on a loaded machine)
 const WALL_WATCHDOG: Duration = Duration::from_secs(180);
 /// CPU time one case may consume in the sweep before it is set aside as a hang suspect
-const CPU_LIMIT_SHORT_MS: u64 = 500;
+const CPU_LIMIT_SHORT_MS: u64 = 250;
 /// CPU time a hang suspect gets when it is re-run alone
 const CPU_LIMIT_LONG_MS: u64 = 10_000;
 const CPU_EXIT: i32 = 87;
@@ -64,12 +64,17 @@ pub struct Plan {
     pub total: u64,
 }
 
-/// quick-tier corpus subset: entries whose name is listed get the full operator set; every other entry
-/// still gets truncations, windows and splices but only if `quick_full` says so.
+/// quick-tier corpus subset (the thorough tier uses every entry)
+const QUICK_ENTRIES: &[&str] = &[
+    "ipc-stream/prim", "ipc-stream/str", "ipc-stream/dict", "ipc-stream/views", "ipc-stream/list", "ipc-stream/struct", "ipc-stream/union", "ipc-stream/lz4", "ipc-stream/zstd", "ipc-stream/schema-only",
+    "ipc-file/prim", "ipc-file/str", "ipc-file/dict", "ipc-file/views", "ipc-file/list", "ipc-file/struct", "ipc-file/union", "ipc-file/lz4", "ipc-file/zstd", "ipc-file/schema-only",
+    "flight/prim", "flight/dict", "flight/views",
+    "parquet/plain-v1-uncomp", "parquet/dict-v1-snappy", "parquet/plain-v2-zstd", "parquet/delta-v2-uncomp", "parquet/bss-v1-lz4raw", "parquet/rle-bool-v2-gzip", "parquet/nested-list-v1-brotli", "parquet/struct-map-v2-snappy",
+    "parquet/pageidx-v1-uncomp", "parquet/views-arrowmeta-v1", "parquet/empty-v1",
+    "avro-ocf/simple-null", "avro-ocf/simple-deflate", "avro-ocf/simple-snappy", "avro-ocf/nested-null",
+];
 fn in_quick(e: &Entry) -> bool {
-    // quick tier runs all operators except byte255 on every entry (measured to fit the budget)
-    let _ = e;
-    true
+    matches!(e.fmt, Fmt::AvroSoe | Fmt::Csv | Fmt::Json | Fmt::Variant) || QUICK_ENTRIES.contains(&e.name.as_str())
 }
 
 pub fn plan(thorough: bool) -> Plan {
@@ -95,7 +100,7 @@ pub fn plan(thorough: bool) -> Plan {
     // cross-splices: every ordered pair of distinct same-format entries
     for (i, a) in corpus.iter().enumerate() {
         for (j, b) in corpus.iter().enumerate() {
-            if i == j || a.fmt != b.fmt {
+            if i == j || a.fmt != b.fmt || (!thorough && !(in_quick(a) && in_quick(b))) {
                 continue;
             }
             let readers: Vec<Rd> = a.readers.iter().copied().filter(|r| b.readers.contains(r)).collect();
@@ -117,7 +122,8 @@ pub fn plan(thorough: bool) -> Plan {
         if e.fmt != Fmt::Variant {
             continue;
         }
-        if ["variant/object", "variant/list", "variant/int8", "variant/string-short"].contains(&e.name.as_str()) {
+        let menu: &[&str] = if thorough { &["variant/object", "variant/list", "variant/int8", "variant/string-short"] } else { &["variant/object", "variant/int8"] };
+        if menu.contains(&e.name.as_str()) {
             push(JobKind::ShortMeta { entry: i }, mutate::SHORT_STRINGS, e.readers.clone(), "variant/short-metadata".into());
         }
     }
@@ -216,7 +222,7 @@ pub fn evaluate(rd: Rd, e: &Entry, bytes: &[u8], segs: &[usize], pristine: Optio
             Eval { class: "panic".into(), violation: Some((fp, format!("panic at {}:{}: {}", p.file, p.line, p.msg.chars().take(300).collect::<String>()))), peak: 0 }
         }
         Ok((Outcome::Err(c), peak)) => Eval { class: format!("err:{c}"), violation: None, peak },
-        Ok((Outcome::Invalid(fp, msg), peak)) => Eval { class: "invalid".into(), violation: Some((format!("wf:c08:{}:{}", rd.name(), fp), msg)), peak },
+        Ok((Outcome::Invalid(fp, msg), peak)) => Eval { class: "invalid".into(), violation: Some((sanitize(&format!("wf:c08:{}:{}", rd.name(), fp)), msg)), peak },
         Ok((Outcome::Ok { batches, note }, peak)) => {
             let class = match pristine {
                 Some((pb, pn)) => {
@@ -244,8 +250,30 @@ pub fn panic_fp(p: &vcore::PanicInfo) -> String {
         let rest = rest.split_once('/').map(|x| x.1).unwrap_or(rest);
         file = format!("std:{rest}");
     }
+    if let Some(pos) = file.find("/repo/") {
+        // a scratch copy of the repository reports the same call sites as /repo
+        file = format!("/repo/{}", &file[pos + "/repo/".len()..]);
+    }
     let q = vcore::PanicInfo { file, line: p.line, msg: p.msg.clone() };
-    q.fingerprint()
+    sanitize(&q.fingerprint())
+}
+
+/// one line, single spaces: fingerprints end up in known_findings.json and in report lines
+pub fn sanitize(s: &str) -> String {
+    let mut out = String::new();
+    let mut sp = false;
+    for c in s.chars() {
+        if c.is_whitespace() || c.is_control() {
+            if !sp {
+                out.push(' ');
+            }
+            sp = true;
+        } else {
+            out.push(c);
+            sp = false;
+        }
+    }
+    out.trim().to_string()
 }
 
 fn pristine_of(plan: &Plan) -> Pristine {
@@ -383,6 +411,7 @@ struct Shared {
     hi: u64,
     skip: BTreeSet<u64>,
     tier: &'static str,
+    careful: bool,
 }
 static SHARED: std::sync::OnceLock<Shared> = std::sync::OnceLock::new();
 /// runner threads parked inside a refused allocation (their memory and stack stay allocated)
@@ -462,7 +491,12 @@ fn runner(start: u64) -> ! {
             let job = &plan.jobs[j];
             let rd = job.readers[r];
             let e = &plan.corpus[*ei];
-            println!("@ {idx}");
+            // the in-flight marker is only needed to attribute a crash; refusals and CPU-limit exits
+            // report their own index. Outside careful mode it is printed every 64th case and a crash
+            // makes the parent re-run the block in careful mode.
+            if sh.careful || idx % 64 == 0 || idx == start {
+                println!("@ {idx}");
+            }
             meter::CASE_IDX.store(idx, Ordering::Release);
             let ev = evaluate(rd, e, &m.bytes, &m.segs, sh.pristine.get(&(*ei, rd)));
             meter::CASE_IDX.store(u64::MAX, Ordering::Release);
@@ -509,7 +543,7 @@ fn worker(ctx: &Ctx, lo: u64, hi: u64, skip: &BTreeSet<u64>, cpu_limit_ms: u64) 
     let hi = hi.min(plan.total);
     *ACC.lock().unwrap() = Some((lo, BlockAcc::default()));
     if !ctx.has_flag("--resolve") {
-        let _ = SHARED.set(Shared { plan, pristine, hi, skip: skip.clone(), tier: if ctx.quick() { "quick" } else { "thorough" } });
+        let _ = SHARED.set(Shared { plan, pristine, hi, skip: skip.clone(), tier: if ctx.quick() { "quick" } else { "thorough" }, careful: ctx.has_flag("--careful") });
         // the first runner gets the same stack size as its successors
         let h = std::thread::Builder::new().stack_size(RUNNER_STACK).spawn(move || {
             spawn_cpu_monitor(cpu_limit_ms);
@@ -599,13 +633,16 @@ struct UnitResult {
 /// Runs one worker over [lo, hi) with `skip`; returns committed stats, the committed upper bound, the
 /// refusals inside committed blocks and how the worker ended for the case in flight (if it did not
 /// complete).
-fn run_once(ctx: &Ctx, exe: &std::path::Path, lo: u64, hi: u64, skip: &BTreeSet<u64>, cpu_limit_ms: u64, peak: &mut u64) -> Once {
+fn run_once(ctx: &Ctx, exe: &std::path::Path, lo: u64, hi: u64, skip: &BTreeSet<u64>, cpu_limit_ms: u64, careful: bool, peak: &mut u64) -> Once {
     let tier = if ctx.quick() { "quick" } else { "thorough" };
     let mut args: Vec<String> = vec!["C08".into(), "--tier".into(), tier.into(), "--worker".into(), lo.to_string(), hi.to_string(), "--cpu-limit".into(), cpu_limit_ms.to_string()];
     let sk: Vec<String> = skip.iter().filter(|&&s| s >= lo && s < hi).map(|s| s.to_string()).collect();
     if !sk.is_empty() {
         args.push("--skip".into());
         args.push(sk.join(","));
+    }
+    if careful {
+        args.push("--careful".into());
     }
     let mut committed = lo;
     let mut st = Stats::new();
@@ -614,6 +651,7 @@ fn run_once(ctx: &Ctx, exe: &std::path::Path, lo: u64, hi: u64, skip: &BTreeSet<
     let mut allocs: Vec<(u64, Abnormal)> = vec![];
     let mut last_cpu: Option<(u64, u64)> = None;
     let mut garbled = false;
+    let mut need_careful = false;
     let end = run_worker(exe, &args, Some(RLIMIT_AS), WALL_WATCHDOG, |l| {
         if let Some(j) = l.strip_prefix("S ") {
             match vcore::serde_json::from_str::<Value>(j) {
@@ -647,6 +685,10 @@ fn run_once(ctx: &Ctx, exe: &std::path::Path, lo: u64, hi: u64, skip: &BTreeSet<
             committed = hi;
             (None, garbled)
         }
+        WorkerEnd::Hung { .. } if !careful => {
+            need_careful = true;
+            (None, false)
+        }
         WorkerEnd::Hung { in_flight } => {
             let idx = in_flight.filter(|&i| i >= committed && i < hi);
             (idx.map(|i| (i, Abnormal::WallLimit)), garbled || idx.is_none())
@@ -663,7 +705,16 @@ fn run_once(ctx: &Ctx, exe: &std::path::Path, lo: u64, hi: u64, skip: &BTreeSet<
             if voluntary {
                 (None, garbled)
             } else {
+                // outside careful mode the marker is sparse: the CPU-limit line carries its own index
+                let idx = match &last_cpu {
+                    Some((ci, _)) if cpu && *ci >= committed && *ci < hi => Some(*ci),
+                    _ => idx,
+                };
                 let ab = match idx {
+                    None if !careful && !cpu && !refused => {
+                        need_careful = true;
+                        None
+                    }
                     None => None,
                     Some(i) => match &last_cpu {
                         Some((ci, ms)) if cpu && *ci == i => Some((i, Abnormal::CpuLimit { ms: *ms })),
@@ -671,6 +722,10 @@ fn run_once(ctx: &Ctx, exe: &std::path::Path, lo: u64, hi: u64, skip: &BTreeSet<
                         _ if refused => pending.iter().find(|(pi, _)| *pi == i).cloned(),
                         // exit code of the monitor without a matching line: a race with the next case; retry
                         _ if cpu => None,
+                        _ if !careful => {
+                            need_careful = true;
+                            None
+                        }
                         _ => Some((i, Abnormal::Died { desc })),
                     },
                 };
@@ -679,7 +734,7 @@ fn run_once(ctx: &Ctx, exe: &std::path::Path, lo: u64, hi: u64, skip: &BTreeSet<
             }
         }
     };
-    Once { st, committed, allocs, last, glitch }
+    Once { st, committed, allocs, last, glitch: glitch && !need_careful, need_careful }
 }
 
 struct Once {
@@ -690,6 +745,8 @@ struct Once {
     /// how the worker ended for the case in flight, if it did not complete its range
     last: Option<(u64, Abnormal)>,
     glitch: bool,
+    /// the worker crashed while markers were sparse: re-run from `committed` in careful mode
+    need_careful: bool,
 }
 
 fn abnormal_violation(ctx: &Ctx, plan: &Plan, exe: &std::path::Path, st: &mut Stats, idx: u64, ab: &Abnormal) {
@@ -729,8 +786,13 @@ fn run_unit(ctx: &Ctx, plan: &Plan, exe: &std::path::Path, lo: u64, hi: u64, pea
     let mut cur = lo;
     let mut restarts = 0u64;
     let mut glitches = 0u64;
+    let mut careful = false;
     while cur < hi {
-        let o = run_once(ctx, exe, cur, hi, &skip, CPU_LIMIT_SHORT_MS, peak);
+        let o = run_once(ctx, exe, cur, hi, &skip, CPU_LIMIT_SHORT_MS, careful, peak);
+        if o.need_careful {
+            careful = true;
+            restarts += 1;
+        }
         st.merge(o.st);
         let committed = o.committed;
         cur = committed;
@@ -815,7 +877,7 @@ fn confirm_suspects(ctx: &Ctx, plan: &Plan, exe: &std::path::Path, mut suspects:
                     }
                     let mut tries = 0;
                     loop {
-                        let o = run_once(ctx, exe, idx, idx + 1, &BTreeSet::new(), CPU_LIMIT_LONG_MS, &mut pk);
+                        let o = run_once(ctx, exe, idx, idx + 1, &BTreeSet::new(), CPU_LIMIT_LONG_MS, true, &mut pk);
                         let ab = o.last.or_else(|| o.allocs.first().cloned());
                         match ab {
                             None if o.glitch && tries < 5 => {
@@ -1029,7 +1091,7 @@ pub fn run(ctx: &Ctx) -> ! {
         rule: "an evaluation is one (corpus entry, mutation, reader entry point) descriptor; distinct by construction; non-trivial iff the mutated bytes differ from the pristine corpus entry (different descriptors may still produce identical bytes, e.g. a window overwrite that equals a bit flip)".into(),
         assumptions: vec![
             "corpus inputs are 4..1500 bytes produced by the library's own writers; inputs larger than the corpus and multi-field coordinated corruptions other than splices and length windows are not explored".into(),
-            "each evaluation runs in a worker subprocess of the engine (RLIMIT_AS 4 GiB); a refused allocation or an exhausted CPU-time limit ends the worker and is attributed to the case in flight; termination = a result within the CPU-time limit (0.5 s in the sweep; every case that hits it is set aside and the representative of each reader is re-run alone with a 10 s limit before the class is reported)".into(),
+            "each evaluation runs in a worker subprocess of the engine (RLIMIT_AS 4 GiB); a refused allocation or an exhausted CPU-time limit ends the worker and is attributed to the case in flight; termination = a result within the CPU-time limit (0.25 s in the sweep; every case that hits it is set aside and the representative of each reader is re-run alone with a 10 s limit before the class is reported)".into(),
             "allocation is metered per reading thread through the Rust global allocator; the readers under test do not spawn threads; memory obtained by C codec libraries (zstd, bzip2, xz) directly from malloc is only limited by RLIMIT_AS".into(),
             "validity oracle = RecordBatch/schema agreement + ArrayData::validate_full + union type-id/offset check; semantic equality with the pristine decode is not required (any valid data is acceptable)".into(),
         ],
